@@ -88,8 +88,6 @@ all_reference_ids: Set[str] = set()
 
 @contextmanager
 def managed_provide_cache(provide_id: str) -> Generator[None, None, None]:
-    all_reference_ids_before = all_reference_ids.copy()
-
     def cache_cleanup() -> None:
         # Lastly, remove provided data from the cache that was generated during this run,
         # IF there are no more references to it.
@@ -115,8 +113,9 @@ def managed_provide_cache(provide_id: str) -> Generator[None, None, None]:
     except Exception as e:
         # In case of an error in `Component.render()`, there may be some
         # references left hanging, so we remove them.
-        new_reference_ids = all_reference_ids - all_reference_ids_before
-        for reference_id in new_reference_ids:
+        # NOTE: Only the references to THIS provided data. Renders that run at the same time
+        # in other threads register their references in the same module-level sets.
+        for reference_id in list(provide_references.get(provide_id, ())):
             unregister_provide_reference(reference_id)
 
         # Cleanup
@@ -153,12 +152,14 @@ def unregister_provide_reference(reference_id: str) -> None:
     all_reference_ids.remove(reference_id)
 
     for provide_id in list(provide_references.keys()):
-        if reference_id not in provide_references[provide_id]:
+        # NOTE: The entry may be gone by now - removed by a render running in another thread.
+        references = provide_references.get(provide_id)
+        if references is None or reference_id not in references:
             continue
 
-        provide_references[provide_id].remove(reference_id)
+        references.discard(reference_id)
 
         # There are no more references to the provided data, so we can delete it.
-        if not provide_references[provide_id]:
-            provide_cache.pop(provide_id)
-            provide_references.pop(provide_id)
+        if not references:
+            provide_cache.pop(provide_id, None)
+            provide_references.pop(provide_id, None)
